@@ -154,10 +154,13 @@ class Model:
         return ok
 
     # -- dynamic -------------------------------------------------------------
-    def closure(self, result_of) -> Tuple[Set[Inst], Dict[Inst, Set[str]], Set[Inst]]:
+    def closure(self, result_of, never=()) -> Tuple[Set[Inst], Dict[Inst, Set[str]], Set[Inst]]:
         """Least fixed point of spawn-on-demand.
 
         result_of(t, p) -> set of outputs the instance completes if it runs.
+        `never`: instances assumed never to be spawned (used to take the
+        instances of a recorded known finding, and what only they lead to,
+        out of the reference).
         Returns (ran, done, ambiguous) where ambiguous = instances whose
         prerequisites are true but that no upstream output spawned and that
         are not parentless (their fate is not fixed by the statement).
@@ -169,7 +172,7 @@ class Model:
         while changed:
             changed = False
             for (t, p) in insts:
-                if (t, p) in ran:
+                if (t, p) in ran or (t, p) in never:
                     continue
                 if self.parentless(t, p):
                     go = self.prereq(t, p, done)
